@@ -13,7 +13,7 @@ EO = ["never fires more often than the least-matched definition",
 
 def sc(n, L, tiers, parallel=True, K=None):
     if parallel:
-        return dict(name="C14 parallel-multiple n=%d L=%d" % (n, L), entry="VerifC14_Par%d_L%d" % (n, L), harness="logic",
+        return dict(**({"time_budget_s": 600} if (n, L) == (2, 6) else {}), name="C14 parallel-multiple n=%d L=%d" % (n, L), entry="VerifC14_Par%d_L%d" % (n, L), harness="logic",
                     K=K or (3 * L + 10), reach=["end"], tiers=tiers, expect_obligations=EO if n > 1 else EO[3:],
                     bounds="%d definitions, all histories of length %d over {d0..d%d, none}" % (n, L, n - 1))
     return dict(name="C14 multiple n=%d L=%d" % (n, L), entry="VerifC14_Multi%d_L%d" % (n, L), harness="logic",
